@@ -154,6 +154,29 @@ def review(ob, prog, roots, table, fshort, stop=(), include_overflow=False, scop
             ntable[kk] = (o_[0] + v[0], o_[1] if v[1] in o_[1] else o_[1] + " / " + v[1]) + ((status,) if status else ())
         else:
             ntable[kk] = v
+    # a reviewed function that no longer exists was (most likely) folded into its caller(s): its reviewed sites are then
+    # expected there; the instance keeps the key of the reviewed entry so that a known finding stays the same finding
+    moved = {}
+    try:
+        import json as _json
+        import os as _os
+        with open(_os.path.join(_os.path.dirname(_os.path.dirname(_os.path.abspath(__file__))), "rules", "known_fns.json")) as fh:
+            _rc = _json.load(fh).get("callers", {})
+    except Exception:
+        _rc = {}
+    present = set(nk(d) for d in prog.bodies)
+    for kk, v in list(ntable.items()):
+        root = kk[0].split("::{closure")[0]
+        if any(x == root or x.startswith(root + "::{closure") for x in present):
+            continue
+        for c in _rc.get("alpenglow::" + root, []):
+            ck = (nk(c) + kk[0][len(root):], kk[1], kk[2])
+            if ck in ntable:
+                o_ = ntable[ck]
+                ntable[ck] = (o_[0] + v[0], o_[1] + " / " + v[1]) + tuple(o_[2:3] or v[2:3])
+            else:
+                ntable[ck] = v
+                moved[ck] = kk
     table = ntable
     U = prog.reachable_from(roots, stop=stop)
     groups = {}
@@ -180,7 +203,7 @@ def review(ob, prog, roots, table, fshort, stop=(), include_overflow=False, scop
         status = rev[2] if rev and len(rev) > 2 else "ok"
         if rev and status == "finding":
             for s in ss:
-                ob.fail("%s|%s|%s" % k, "reviewed as a genuine finding: %s" % rev[1], s.span, {"msg": s.msg})
+                ob.fail("%s|%s|%s" % moved.get(k, k), "reviewed as a genuine finding: %s" % rev[1], s.span, {"msg": s.msg})
             continue
         n_ok = min(len(ss), rev[0]) if rev else 0
         if n_ok:
